@@ -13,7 +13,7 @@ Definition account_index (value : str) : res Z := value_in_interval value 0 (2 ^
 Definition len (s : str) : Z := Z.of_nat (length s).
 Definition extended_key (value : str) : res str := if len value =? 111 then Ok value else Err.
 Definition mnemonic (value : str) : res str :=
-  if memb (Z.of_nat (length (split_on 32 value []))) CORRECT_MNEMONIC_LENGTH then Ok (WalletUtils.strip value) else Err.
+  if memb (Z.of_nat (length (split_on 32 value []))) CORRECT_MNEMONIC_LENGTH then Ok (strip value) else Err.
 Definition bip39_seed (value : str) : res str := if len value =? 128 then Ok value else Err.
 Definition entropy_hex (value : str) : res str := if memb (len value * 4) CORRECT_ENTROPY_BITS then Ok value else Err.
 
